@@ -114,7 +114,8 @@ class Agg:
         # vocabulary of rounds 20-21: how many runs actually had it
         if any(k.get("ppn") or k.get("vn") for k in kn.get("keys", [])):
             self.knob_cov["several_named_directive_functions"] += 1
-        for name in ("mass_eviction", "sparse_writer", "http_last_modified", "cache_dir_link", "multipart", "warnings_error"):
+        for name in ("mass_eviction", "sparse_writer", "http_last_modified", "cache_dir_link", "multipart", "warnings_error",
+                     "log_debug", "size_arg_int_zero", "val_ioerror_class"):
             if kn.get(name):
                 self.knob_cov[name] += 1
         if kn.get("err_type") in ("warning", "userwarning"):
